@@ -78,6 +78,7 @@ type RRoute struct {
 	Path    []RPart `json:"path"`
 	Handler int     `json:"handler"`
 	ViaCtrl int     `json:"viactrl"` // which controller variable is used for method values
+	Mw      int     `json:"mw,omitempty"` // number of trailing middleware arguments (echo: GET(path, h, m ...MiddlewareFunc))
 }
 
 type RCtrl struct {
@@ -305,6 +306,10 @@ func GenRoutes(t *rapid.T, o *RouteOpts) *RouteSpec {
 		r := RRoute{Verb: []string{"GET", "POST", "PUT", "DELETE"}[rapid.IntRange(0, 3).Draw(t, "verb")], Handler: len(rs.Handlers) - 1, ViaCtrl: h.Ctrl}
 		if (hasBind || hasForm) && (r.Verb == "GET" || r.Verb == "DELETE") && o.gated("body_on_get_delete") {
 			r.Verb = "POST"
+		}
+		if rapid.IntRange(0, 3).Draw(t, "middlewares") == 0 {
+			r.Mw = rapid.IntRange(1, 2).Draw(t, "nMiddlewares")
+			o.class("routes:with_middleware_arguments")
 		}
 		nParts := rapid.IntRange(1, 3).Draw(t, "nParts")
 		for p := 0; p < nParts; p++ {
@@ -624,10 +629,12 @@ type Context interface {
 
 type Echo struct{}
 
-func (Echo) GET(string, func(Context) error)    {}
-func (Echo) POST(string, func(Context) error)   {}
-func (Echo) PUT(string, func(Context) error)    {}
-func (Echo) DELETE(string, func(Context) error) {}
+type MiddlewareFunc func(func(Context) error) func(Context) error
+
+func (Echo) GET(string, func(Context) error, ...MiddlewareFunc)    {}
+func (Echo) POST(string, func(Context) error, ...MiddlewareFunc)   {}
+func (Echo) PUT(string, func(Context) error, ...MiddlewareFunc)    {}
+func (Echo) DELETE(string, func(Context) error, ...MiddlewareFunc) {}
 func (Echo) GETTER(int)                          {}
 func (Echo) Use(string)                          {}
 `
@@ -693,6 +700,12 @@ func helperLog(string)  {}
 
 var _ = helperLog
 
+// middlewares given after the handler in some registrations
+func authMw(next func(echo.Context) error) func(echo.Context) error { return next }
+func logMw(next func(echo.Context) error) func(echo.Context) error  { return next }
+
+var _, _ = authMw, logMw
+
 `)
 	if rs.Decoys {
 		sb.WriteString("// decoys: a method with a handler's name on another type, and an unregistered handler\ntype other struct{}\n\nfunc (other) list(echo.Context) error { return nil }\nfunc (other) create(c echo.Context) error {\n\tvar in Filter\n\t_ = c.Bind(&in)\n\treturn c.JSON(200, in)\n}\n\nfunc unusedHandler(c echo.Context) error {\n\tid := c.QueryParam(\"unused\")\n\thelperUse(id)\n\treturn nil\n}\n\n")
@@ -753,7 +766,7 @@ var _ = helperLog
 		case "literal":
 			handler = fmt.Sprintf("func(%s echo.Context) error {\n%s\t}", h.Ctx, strings.ReplaceAll(rs.renderBody(h), "\n\t", "\n\t\t"))
 		}
-		sb.WriteString(fmt.Sprintf("\te.%s(%s, %s)\n", r.Verb, strings.Join(parts, "+"), handler))
+		sb.WriteString(fmt.Sprintf("\te.%s(%s, %s%s)\n", r.Verb, strings.Join(parts, "+"), handler, []string{"", ", authMw", ", authMw, echo.MiddlewareFunc(logMw)"}[r.Mw]))
 	}
 	if rs.SecondInner {
 		sb.WriteString("\te.POST(\"/v2/ping\", inner2.PingV2)\n")
